@@ -11,6 +11,6 @@ s=open(f).read()
 if old not in s: sys.exit(1)
 open(f,'w').write(s.replace(old,new,1))
 PY
-cd /verif && ./check $ID quick 2>&1 | grep -E "VIOLATION|KNOWN|OK |INCONCLUSIVE|identity" | head -8; echo "rc=${PIPESTATUS[0]}"
+cd /verif && VERIF_SCRATCH=/tmp/wt/mut-scratch ./check $ID quick 2>&1 | grep -E "VIOLATION|KNOWN|OK |INCONCLUSIVE|identity" | head -8; echo "rc=${PIPESTATUS[0]}"
 cp /tmp/.mut_backup_$$ "/repo/$F"; rm -f /tmp/.mut_backup_$$
-rm -rf /verif/replays/$ID
+rm -rf /tmp/wt/mut-scratch/replays /tmp/wt/mut-scratch/evidence
